@@ -51,6 +51,15 @@ def big_edit_cases(tier, seed):
                                                ([{"op": "ins", "off": size // 2 + rnd.randrange(size // 4), "n": 0, "m": rnd.choice([1, 100])}] if rnd.random() < 0.5 else [])}})
         cases.append({"class": "identical", "bounded": True, "blk": 0, "s2": 16,
                       "gen": {"kind": "edits", "seed": rnd.randrange(1 << 30), "size": size, "edits": []}})
+    # strong checksums truncated the way other protocol-27 generators announce them (2 and 8 bytes instead of 16):
+    # matching must work just the same
+    for s2 in (2, 8):
+        for size in (5000, 300_001):
+            cases.append({"class": "short-strong-identical", "bounded": True, "blk": 0, "s2": s2,
+                          "gen": {"kind": "edits", "seed": rnd.randrange(1 << 30), "size": size, "edits": []}})
+            cases.append({"class": "short-strong-edits", "bounded": True, "blk": 0, "s2": s2,
+                          "gen": {"kind": "edits", "seed": rnd.randrange(1 << 30), "size": size,
+                                  "edits": [{"op": "rep", "off": size // 3, "n": 5, "m": 9}, {"op": "ins", "off": size // 2, "n": 0, "m": 100}]}})
     # reference-computed checksums at other block sizes
     for blk in [700, 704, 1000, 4096, 32768, 131072]:
         size = blk * rnd.randrange(5, 12) + rnd.randrange(blk)
